@@ -240,6 +240,12 @@ func init() {
 			m.cfg.SchedFixed = v != 0
 		case "hrw_score_uninterpreted":
 			m.cfg.HrwScoreUF = v != 0
+		case "solver_bv_tactic":
+			// try z3's bit-vector tactic before the incremental core (solver_tactic.go)
+			m.solver.tactic = ""
+			if v != 0 {
+				m.solver.tactic = "qfbv"
+			}
 		case "max_decisions":
 			m.cfg.MaxDecisions = v
 		case "max_concretize":
